@@ -5,22 +5,90 @@ Every row cites where the rule is documented; nothing is scraped from the valida
 `target class` selects the positions: any instance of that class reachable from the object (any variant in the forest, any
 image in any cell, any section object)."""
 
+EDIT_ALPHABET = ["0", "7", "a", "A", ".", "-", "_", " ", ",", ":", "x"]
+LABEL_NAMES = ["EA", "DevelPhaseExit", "InternalAlpha", "Alpha", "InternalSnapshot", "Beta", "Snapshot", "RC", "Update", "SecurityFix"]
+
+
+def _digits(s):
+    return bool(s) and all("0" <= ch <= "9" for ch in s)
+
+
+def ref_label(s):
+    """$LABEL_NAME-$major.$minor (composeinfo.LABEL_NAMES; decimal integers)"""
+    name, dash, rest = s.partition("-")
+    major, dot, minor = rest.partition(".")
+    return name in LABEL_NAMES and dash == "-" and dot == "." and _digits(major) and _digits(minor)
+
+
+def ref_date(s):
+    return len(s) == 8 and _digits(s)
+
+
+def ref_numeric_or_free_version(s):
+    if not s:
+        return False
+    if not ("0" <= s[0] <= "9"):
+        return True
+    return all(_digits(part) for part in s.split("."))
+
+
+def ref_variant_id(s):
+    return bool(s) and all("a" <= c <= "z" or "A" <= c <= "Z" or "0" <= c <= "9" for c in s)
+
+
+def ref_md5(s):
+    return len(s) == 32 and all("a" <= c <= "z" or "0" <= c <= "9" for c in s)
+
+
+def ref_header_version(s):
+    a, dot, b = s.partition(".")
+    return dot == "." and _digits(a) and _digits(b)
+
+
+def near_misses(exemplar, valid):
+    """every single-character edit (delete / replace / insert over a small ASCII alphabet) of a valid exemplar that the
+    hand-written reference predicate rejects: values just outside the documented domain"""
+    assert valid(exemplar), exemplar
+    out = []
+    for i in range(len(exemplar)):
+        out.append(exemplar[:i] + exemplar[i + 1:])
+        for ch in EDIT_ALPHABET:
+            out.append(exemplar[:i] + ch + exemplar[i + 1:])
+    for i in range(len(exemplar) + 1):
+        for ch in EDIT_ALPHABET:
+            out.append(exemplar[:i] + ch + exemplar[i:])
+    seen, res = set(), []
+    for cand in out:
+        if cand not in seen and not valid(cand):
+            seen.add(cand)
+            res.append(cand)
+    return res
+
+
+BAD_LABELS = near_misses("Beta-1.2", ref_label) + near_misses("RC-10.0", ref_label)
+BAD_DATES = near_misses("20160622", ref_date)
+BAD_NUMERIC_VERSIONS = near_misses("7.2", ref_numeric_or_free_version) + near_misses("10", ref_numeric_or_free_version)
+BAD_VARIANT_IDS = near_misses("Server", ref_variant_id)
+BAD_MD5 = near_misses("0123456789abcdef0123456789abcdef", ref_md5)[::7]
+BAD_HEADER_VERSIONS = near_misses("1.2", ref_header_version)
+
 NOT_A_STRING = [None, 5]
 NOT_AN_INT = [None, "1", 1.5]
 NOT_A_BOOL = [None, "yes", 1]
 
 COMPOSE_SECTION = [
     ("Compose", "type", ["Production", "", None, "prod", "NIGHTLY"], "composeinfo.COMPOSE_TYPES: supported compose types"),
-    ("Compose", "date", ["2015", "201505221", "2015-5-2", "abcdefgh", None, 20150522, ""], "doc: date <str>, validator comment: 8 digits"),
+    ("Compose", "date", ["2015", "201505221", "2015-5-2", "abcdefgh", None, 20150522, ""] + BAD_DATES, "doc: date <str>, validator comment: 8 digits"),
     ("Compose", "id", ["", None, "Foo-1.0", 5], "doc: id <str>; compose id carries the 8-digit date"),
     ("Compose", "respin", NOT_AN_INT, "doc composeinfo-1.1: respin <int>"),
-    ("Compose", "label", ["GA", "Beta", "Beta-1", "Beta-1.", "beta-1.0", "RC-1.0.0", "Foo-1.0", 5, "RC_1.0"], "composeinfo.LABEL_NAMES: $label_name-$major.$minor"),
+    ("Compose", "label", ["GA", "Beta", "Beta-1", "Beta-1.", "beta-1.0", "RC-1.0.0", "Foo-1.0", 5, "RC_1.0", "RC-100", "RC-20240101"] + BAD_LABELS,
+     "composeinfo.LABEL_NAMES: $label_name-$major.$minor"),
 ]
 
 RULES = {
     "composeinfo": COMPOSE_SECTION + [
         ("Release", "type", ["GA", "bogus", None, "", "Updates"], "common.RELEASE_TYPES (known release types); case-folding happens on load only"),
-        ("Release", "version", ["1.", "1..2", "1a", "", None, 7, "11.."], "common.RELEASE_VERSION_RE doc: any string or [0-9] separated with dots"),
+        ("Release", "version", ["1.", "1..2", "1a", "", None, 7, "11.."] + BAD_NUMERIC_VERSIONS, "common.RELEASE_VERSION_RE doc: any string or [0-9] separated with dots"),
         ("Release", "name", NOT_A_STRING, "attribute doc: (str) release name"),
         ("Release", "short", NOT_A_STRING, "attribute doc: (str) release short name"),
         ("Release", "is_layered", NOT_A_BOOL, "attribute doc: (bool=False)"),
@@ -28,7 +96,7 @@ RULES = {
         ("BaseProduct", "type", ["bogus", None, "GA"], "common.RELEASE_TYPES"),
         ("BaseProduct", "version", ["1.", "1..2", "1a", None], "RELEASE_VERSION_RE"),
         ("BaseProduct", "name", NOT_A_STRING, "attribute doc: (str)"),
-        ("Variant", "id", ["a-b", "a b", "", None, "x.y"], "attribute doc: variant ID; validator comment ^[a-zA-Z0-9]+$ (dash separates UID parts)"),
+        ("Variant", "id", ["a-b", "a b", "", None, "x.y"] + BAD_VARIANT_IDS, "attribute doc: variant ID; validator comment ^[a-zA-Z0-9]+$ (dash separates UID parts)"),
         ("Variant", "name", ["", None, 5], "attribute doc: variant name (pretty text), required"),
         ("Variant", "type", ["bogus", None, "Variant", ""], "composeinfo.VARIANT_TYPES"),
         ("Variant", "arches", [set(), []], "attribute doc: set of arches for a variant (non-empty)"),
@@ -44,7 +112,7 @@ RULES = {
         ("Image", "disc_number", NOT_AN_INT, "doc: disc_number <int>"),
         ("Image", "disc_count", NOT_AN_INT, "doc: disc_count <int>"),
         ("Image", "checksums", [{}, None, [("md5", "x")]], "doc: checksums {type: value}; at least one"),
-        ("Image", "implant_md5", ["abc", "A" * 32, "0123456789abcdef0123456789abcde-", "a" * 33, "a" * 31, 5, ""], "doc: implant_md5 <str|null> md5 checksum (32 lower-case hex)"),
+        ("Image", "implant_md5", ["abc", "A" * 32, "0123456789abcdef0123456789abcde-", "a" * 33, "a" * 31, 5, ""] + BAD_MD5, "doc: implant_md5 <str|null> md5 checksum (32 lower-case hex)"),
         ("Image", "bootable", NOT_A_BOOL, "doc: bootable <bool>"),
         ("Image", "subvariant", NOT_A_STRING, "doc images-1.1: subvariant <str>"),
         ("Image", "unified", NOT_A_BOOL, "attribute doc: (bool=False)"),
@@ -55,7 +123,7 @@ RULES = {
     "treeinfo": [
         ("Release", "name", NOT_A_STRING, "doc treeinfo-1.1: name <str>"),
         ("Release", "short", NOT_A_STRING, "doc: short <str>"),
-        ("Release", "version", ["1.", "1..2", "1a", None, 7], "doc: version <str>; numeric versions are dot-separated integers"),
+        ("Release", "version", ["1.", "1..2", "1a", None, 7] + BAD_NUMERIC_VERSIONS, "doc: version <str>; numeric versions are dot-separated integers"),
         ("Release", "is_layered", NOT_A_BOOL, "doc: is_layered <bool=False>"),
         ("BaseProduct", "version", ["1.", "1a", None], "doc: base product version"),
         ("BaseProduct", "name", NOT_A_STRING, "doc: name <str>"),
